@@ -24,6 +24,31 @@ fn dens_views<S: Dens>(m: usize, items: &[u64]) -> Result<Vec<Vec<u64>>, String>
     .and_then(|r| r)
 }
 
+/// item-wise streaming; every time no bin is empty (so the getters are legal) all three views are read and discarded,
+/// as an application polling an intermediate signature would do: reading a view must not change any later view
+fn dens_views_polled<S: Dens>(m: usize, items: &[u64]) -> Result<Vec<Vec<u64>>, String> {
+    let items = items.to_vec();
+    guarded_mut(move || {
+        let mut s = S::new(m);
+        let _w = crate::common::watched(|| format!("item-wise sketch of {} items with polled views on a densified sketcher of size {}", items.len(), m));
+        for x in &items {
+            s.sketch(x);
+            if s.state().nb_empty == 0 {
+                let _ = s.views();
+            }
+        }
+        s.end_sketch();
+        let v = s.views();
+        vec![v.hs, v.v64, v.v32.iter().map(|x| *x as u64).collect()]
+    })
+}
+fn opt_polled(m: usize, items: &[u64]) -> Result<Vec<Vec<u64>>, String> {
+    dens_views_polled::<OptDensMinHash<f64, u64, FnvHasher>>(m, items)
+}
+fn rev_polled(m: usize, items: &[u64]) -> Result<Vec<Vec<u64>>, String> {
+    dens_views_polled::<RevOptDensMinHash<f64, u64, FnvHasher>>(m, items)
+}
+
 fn opt<F: FBits, H: HName>(m: usize, items: &[u64]) -> Result<Vec<Vec<u64>>, String>
 where
     rand::distr::StandardUniform: rand::distr::Distribution<F>,
@@ -45,6 +70,8 @@ fn variants() -> Vec<Variant> {
         Variant { name: "RevOptDensMinHash<f32,Fnv>", f: rev::<f32, FnvHasher> },
         Variant { name: "OptDensMinHash<f64,NoHash>", f: opt::<f64, NoHashHasher> },
         Variant { name: "RevOptDensMinHash<f64,NoHash>", f: rev::<f64, NoHashHasher> },
+        Variant { name: "OptDensMinHash<f64,Fnv> item-wise, views polled whenever no bin is empty", f: opt_polled },
+        Variant { name: "RevOptDensMinHash<f64,Fnv> item-wise, views polled whenever no bin is empty", f: rev_polled },
     ]
 }
 
